@@ -331,6 +331,83 @@ func consumerBacklog() {
 	vrt.Quiesce()
 }
 
+// wrapped: two senders through the library's own stream wrapper
+// (net.ConnStream / net.ConnEndPoint, what every dialled or accepted
+// connection gets) towards a reader that stalls: the receiving side only
+// starts reading after the senders have come to rest against a finite send
+// buffer. Every frame whose Send reported success arrives intact, once, in its
+// sender's order; a frame whose Send reported an error may be missing, but
+// nothing damaged is delivered for it either.
+func wrapped() {
+	ca, cb := vnet.NewPair("a", "b")
+	ca.Cap = 4096 // finite buffer towards a peer that is not reading yet
+	frameType = net.Post
+	a := net.ConnEndPoint(ca)
+	vrt.Explore()
+	sent := map[uint32]bool{}
+	failed := map[uint32]bool{}
+	var ws []*vrt.Thread
+	for s := 1; s <= 2; s++ {
+		s := s
+		ws = append(ws, vrt.GoWorker(fmt.Sprintf("sender%d", s), func() {
+			for k := 0; k < 2; k++ {
+				id := uint32(s*100 + k)
+				m := net.NewMessage(net.NewHeader(net.Post, uint32(s), 9, uint32(k+50), id), payload(id, sizes[(s+k)%len(sizes)]))
+				if err := a.Send(m); err != nil {
+					failed[id] = true
+				} else {
+					sent[id] = true
+				}
+			}
+		}))
+	}
+	vrt.Quiesce() // the senders are stuck (or done): now the reader starts
+	var got []*net.Message
+	q := make(chan *net.Message, 32)
+	b := net.EndPointFinalizer(cb, func(e net.EndPoint) {
+		e.MakeHandler(func(h *net.Header) (bool, bool) { return true, true }, q, nil)
+	})
+	vrt.GoNamed("drain", func() {
+		for m := range q {
+			got = append(got, m)
+		}
+	})
+	vrt.Quiesce()
+	for i, w := range ws {
+		if !w.Done() {
+			vrt.Failf(fmt.Sprintf("hang/sender%d", i+1), "sender still blocked on %s although the peer reads now", w.BlockedOn())
+		}
+	}
+	seen := map[uint32]int{}
+	last := map[uint32]int{}
+	for _, m := range got {
+		if !intact(m) {
+			vrt.Failf("corrupt/wrapped", "the receiver was handed a damaged frame: header %+v, %d payload bytes (sends acknowledged: %v, failed: %v)", m.Header, len(m.Payload), sent, failed)
+			continue
+		}
+		seen[m.Header.ID]++
+		sender, seq := m.Header.ID/100, int(m.Header.ID%100)
+		if l, ok := last[sender]; ok && seq <= l {
+			vrt.Failf("sender-order/wrapped", "frame %d of sender %d after frame %d", seq, sender, l)
+		}
+		last[sender] = seq
+	}
+	for id := range sent {
+		if seen[id] != 1 {
+			vrt.Failf("missing/wrapped", "Send of frame %d reported success; the receiver got it %d times (acknowledged %v, failed %v, received %d frames)", id, seen[id], sent, failed, len(got))
+		}
+	}
+	for id, n := range seen {
+		if n > 1 {
+			vrt.Failf("duplicate/wrapped", "frame %d received %d times", id, n)
+		}
+	}
+	vrt.Observe("sent=%d failed=%d got=%d", len(sent), len(failed), len(got))
+	a.Close()
+	b.Close()
+	vrt.Quiesce()
+}
+
 // registration: two goroutines register a handler each on one endpoint at the
 // same time; afterwards every registered handler receives every frame.
 func registration() {
@@ -622,6 +699,8 @@ func init() {
 		Doc: "2 senders x 2 Call frames; the first registered handler selects everything but never drains its 1-slot queue", MustFlag: []string{"sender-overtaken"}})
 	reg.Register(&reg.Scenario{Property: "C10", Name: "addhandler-backlog-then-end", Body: consumerBacklog, Quick: 2, Thorough: 4,
 		Doc: "AddHandler consumer busy with the first of four frames (three wait in its queue of ten); the handler then ends by Close / peer close / RemoveHandler before the consumer gets on: every frame accepted into the queue reaches the consumer, in order"})
+	reg.Register(&reg.Scenario{Property: "C10", Name: "two-senders-wrapped-stream-stalled-reader", Body: wrapped, Quick: 2, Thorough: 4,
+		Doc: "two senders x 2 frames (0 B .. 70 000 B) through the library's own stream wrapper (net.ConnEndPoint) against a finite send buffer while the peer is not reading yet; a write deadline, if the code sets one, may expire mid-buffer (explored); then the peer reads: every acknowledged frame arrives intact, once, in order, nothing damaged is delivered"})
 	reg.Register(&reg.Scenario{Property: "C10", Name: "two-senders-mixed-types", Body: body(2, 3, false, 0, false), Quick: 2, Thorough: 4,
 		Doc: "two senders x 3 frames each, every sender mixing message types (event, post, reply, call, error, capability): each sender's frames arrive in the order it sent them whatever their types"})
 	reg.Register(&reg.Scenario{Property: "C10", Name: "two-senders", Body: body(2, 2, false, net.Post, false), Quick: 2, Thorough: 5,
